@@ -109,7 +109,7 @@ func c07(w *World) {
 		}
 	}
 
-	steps := 1 + w.W.Draw(16)
+	steps := 1 + w.W.Draw(w.Deep(16))
 	last := "connect"
 	check := func() {
 		if auth != nil {
